@@ -2051,6 +2051,12 @@ def compress(condition, a, axis=None):
                 f"index {n + int(surplus[0])} is out of bounds for axis {axis} with size {n}"
             )
         condition = condition[:n]
+    elif not np.isnan(n) and len(condition) > n:
+        # the entries of a lazy condition cannot be inspected here (and a
+        # length-one axis would silently be broadcast against it)
+        raise IndexError(
+            f"condition of length {len(condition)} is too long for axis {axis} with size {n}"
+        )
 
     # Treat `condition` as filled with `False` (if it is too short)
     a = a[
